@@ -107,7 +107,15 @@ def plan_fault(kind, k, rec, rd, enc, cfg, offsets, blocked):
         e = first(lambda e: e["prefix"])
         if not e:
             return None
-        return [{"record": k, "faults": [faults.sub(e["prefix"][0], E("a")[0], kind)]}], []
+        ch = ("a", "²", "-", " ", "³")[(k + len(rec)) % 5]
+        bs = E(ch)
+        if len(bs) != 1 or (ch in "²³" and enc == "ascii"):
+            bs = E("a")
+        both = (k + len(rec)) % 5 == 3      # all blanks
+        e0, e1 = e["prefix"]
+        if both:
+            return [{"record": k, "faults": [faults.rep(e0, e1 - e0, E(" " * (e1 - e0)), kind)]}], []
+        return [{"record": k, "faults": [faults.sub(e0, bs[0], kind)]}], []
     if kind == "bad_int":
         e = first(lambda e: e.get("ptype") in ("int", "long") and e["type"] == "FIXED")
         if not e:
@@ -191,8 +199,20 @@ def judge(scn, want_text=True):
                       "detail": f"the fault-free file did not read back ({cout.kind}, {len(cout.items)} of {len(stored)})",
                       "sig": f"C10.control.clean_file_reads_back|{cout.kind}"})
         return fails, info
-    if out.kind in ("foreign", "budget"):
+    if out.kind == "budget":
         return fails, info  # C07's verdict, not C10's
+    if out.kind == "foreign":
+        # non-library exceptions are C07's ground in general; but when the strict reference says the faulted
+        # record has no exact reading, "raises the library's data error whose record number is k" is broken too
+        for rf in scn.get("rec_faults") or []:
+            if rf.get("length_override") is None and rf["faults"]:
+                rd = refiso.ref_read(stored[rf["record"] - 1][4:], cfg, enc, False)
+                if rd.cls == refiso.REJECT:
+                    fails.append({"oracle": "C10.bad_record_is_reported",
+                                  "detail": f"fault {rf['faults'][0].get('cls')} in record {rf['record']}: {out.exc_type} ({out.exc_text}) "
+                                            f"was raised instead of the library's data error, after {len(out.items)} records",
+                                  "sig": f"C10.bad_record_is_reported|foreign|{out.exc_type}"})
+        return fails, info
     # which record carries the fault, and must it be reported?
     k = None
     must = False
@@ -333,6 +353,50 @@ def judge_continued(scn):
     return fails
 
 
+def judge_churn(scn):
+    """configuration churn: many short-lived configuration objects, alternately with and without one bit,
+    each used by a fresh reader on the same one-record file (anything remembered per configuration OBJECT -
+    e.g. by id() - is stale as soon as an address is reused).  Returns (fails, evaluations)."""
+    import copy as _copy
+    image, stored = corrupt.file_image(dict(scn, rec_faults=[], file_faults=[]))
+    enc = scn.get("encoding") or "latin_1"
+    pk = msgcodec.packaged_bit_config()
+    rec = stored[0][4:]
+    rd = refiso.ref_read(rec, pk, enc, False)
+    present = {e["bit"] for e in rd.spans["elems"]}
+    cand = [b for b in (22, 24, 25, 38, 40, 41, 42, 49, 50, 51, 73) if b not in present]
+    if rd.cls != refiso.ACCEPT or not cand:
+        return [], 0
+    xb = cand[(scn["churn"]["seed"] >> 3) % len(cand)]
+    w = pk[str(xb)]["field_length"]
+    pos = len(rec)
+    for e in rd.spans["elems"]:
+        if e["bit"] > xb:
+            pos = e["prefix"][0] if e["prefix"] else e["data"][0]
+            break
+    bm = bytearray(rec[4:20])
+    bm[(xb - 1) // 8] |= 0x80 >> ((xb - 1) % 8)
+    rec2 = rec[:4] + bytes(bm) + rec[20:pos] + faults.enc_text("Q" * w, enc) + rec[pos:]
+    image2 = len(rec2).to_bytes(4, "big") + rec2 + b"\x00\x00\x00\x00"
+    fails = []
+    n = scn["churn"]["iterations"]
+    for it in range(n):
+        cfg_it = _copy.deepcopy(pk)
+        if it % 2:
+            del cfg_it[str(xb)]          # this configuration does not know bit xb
+        out = decode.run_reader(image2, "IpmReader", False, enc=enc, cfg=cfg_it)
+        want_error = bool(it % 2)
+        ok = (out.kind == "liberr" and out.recno == 1) if want_error else (out.kind == "stop" and len(out.items) == 1)
+        if not ok and not fails:
+            fails.append({"oracle": "C10.bad_record_is_reported" if want_error else "C10.control.clean_file_reads_back",
+                          "detail": f"reader #{it + 1} of {n}, each with a freshly built configuration {'without' if want_error else 'with'} "
+                                    f"bit {xb}: a record flagging bit {xb} gave {out.kind} ({len(out.items)} records delivered)",
+                          "sig": "C10.config_churn|" + ("unknown_bit_not_reported" if want_error else "known_bit_refused"),
+                          "scenario": scn})
+        del cfg_it
+    return fails, n
+
+
 def run_file_seed(seed_i, tier, part):
     base = gen_file(seed_i, nmax=10 if tier == "quick" else 14)
     image, stored = corrupt.file_image(base)
@@ -423,6 +487,13 @@ def run_file_seed(seed_i, tier, part):
                 if sum(1 for x in part["fails"] if x["sig"] == v["sig"]) < 1 and len(part["fails"]) < 12:
                     v["scenario"] = scn
                     part["fails"].append(v)
+    if base["config"] == "packaged" and n >= 1:
+        cf, nev = judge_churn(dict(base, churn={"seed": seed_i, "iterations": 40}))
+        part["evals"] += nev
+        c["fault:configuration_object_churn"] += nev
+        for v in cf:
+            if len(part["fails"]) < 12:
+                part["fails"].append(v)
     part["digests"].append(h.hexdigest()[:16])
     if len(part["samples"]) < 1 and len(stored) >= 2:
         from .c09 import _brief
@@ -459,6 +530,8 @@ def digest_slice(seed):
 
 
 def judge_scenario(scn):
+    if scn.get("churn"):
+        return judge_churn(scn)[0]
     if scn.get("continued"):
         return judge_continued(scn)
     return judge(scn)[0]
@@ -505,7 +578,7 @@ def minimise(scn, oracle):
             return False
 
     cur = dict(scn)
-    if cur.get("continued") or not cur.get("planned") or not ok(cur):
+    if cur.get("churn") or cur.get("continued") or not cur.get("planned") or not ok(cur):
         return scn
     k = cur["planned"]["record"]
     if cur.get("blocked") and ok(dict(cur, blocked=False)):
